@@ -6,7 +6,7 @@
    text.  The scripts do not name the statement order of the generated text beyond what `unfold` exposes; a change of meaning
    (another slice bound, another comparison, a guess moved or dropped, another separator) leaves an open goal.            *)
 From Coq Require Import NArith ZArith Bool Ascii String Arith List Lia.
-From Pq Require Import Base.Bytes Impl.Partition Impl.Paths Impl.PyPaths Proofs.PartitionStr Proofs.PartitionProofs Proofs.PathsProofs.
+From Pq Require Import Base.Bytes Impl.Partition Impl.Paths Impl.PyPaths Dataset.Merge Proofs.PartitionStr Proofs.PartitionProofs Proofs.PathsProofs.
 From PqGen Require Import GenPaths.
 Import ListNotations.
 Local Open Scope nat_scope.
@@ -75,6 +75,16 @@ Proof.
   apply base_rel_string; rewrite <- E; [|apply in_map; exact Hin].
   destruct fl as [|f0 fl']; [discriminate|]. cbn [map] in E. injection E as E0 _. subst p0. left. reflexivity.
 Qed.
+
+(* ------------------------------------------------------------------------------------------------ metadata_from_many, fast path *)
+(* the first-chunk path the footer fast path stores = fast_rel of the merge model (about which C14_fast_slice and
+   C14_fast_equals_legacy speak): for base = join of parts and f = join (base parts ++ rest) it is the join of rest *)
+Theorem gen_fast_rel_is_model : forall basepath f, gen_fast_rel basepath f = fast_rel basepath f.
+Proof. reflexivity. Qed.
+
+Theorem gen_fast_slice : forall (base rest : list str), rest <> [] -> Forall (fun s => s <> [] /\ ~ In c_slash s) rest ->
+  gen_fast_rel (join_with c_slash base) (join_with c_slash (base ++ rest)) = join_with c_slash rest.
+Proof. intros base rest H1 H2. rewrite gen_fast_rel_is_model. apply fast_rel_agrees; assumption. Qed.
 
 (* ------------------------------------------------------------------------------------------------ _strip_path_tail *)
 Lemma split_on_no_char : forall c s, has_char c s = false -> split_on c s = [s].
@@ -224,6 +234,30 @@ End GenCatsProofs.
 Print Assumptions gen_paths_to_cats_is_model.
 Print Assumptions gen_path_to_cats_is_model.
 Print Assumptions gen_paths_to_cats_composed.
+
+(* ------------------------------------------------------------------------------------------------ val_from_meta: the bool literals *)
+Lemma mem_str_incl l1 l2 : forallb (fun t => mem_str t l2) l1 = true -> forall x, mem_str x l1 = true -> mem_str x l2 = true.
+Proof.
+  intros H x Hx. unfold mem_str in Hx. apply existsb_exists in Hx. destruct Hx as [t [Ht Hxt]].
+  rewrite forallb_forall in H. destruct (str_eqb_spec x t) as [->|]; [|discriminate]. apply H. exact Ht.
+Qed.
+
+(* the texts util.val_from_meta reads as True for a bool column ARE the model's (as a set: the order of the literal list is free) *)
+Theorem gen_bool_texts_is_model : forall x,
+  mem_str x gen_bool_true_texts = mem_str x [s_ "true"; s_ "True"; s_ "t"; s_ "T"; s_ "1"].
+Proof.
+  intros x.
+  assert (H1 : forallb (fun t => mem_str t [s_ "true"; s_ "True"; s_ "t"; s_ "T"; s_ "1"]) gen_bool_true_texts = true) by (vm_compute; reflexivity).
+  assert (H2 : forallb (fun t => mem_str t gen_bool_true_texts) [s_ "true"; s_ "True"; s_ "t"; s_ "T"; s_ "1"] = true) by (vm_compute; reflexivity).
+  destruct (mem_str x gen_bool_true_texts) eqn:E1, (mem_str x [s_ "true"; s_ "True"; s_ "t"; s_ "T"; s_ "1"]) eqn:E2; try reflexivity.
+  - rewrite (mem_str_incl _ _ H1 x E1) in E2. discriminate.
+  - rewrite (mem_str_incl _ _ H2 x E2) in E1. discriminate.
+Qed.
+
+(* what the round trip of a boolean key needs of the literal list: str(True) is in it, str(False) is not *)
+Theorem gen_bool_texts_roundtrip : mem_str (s_ "True") gen_bool_true_texts = true /\ mem_str (s_ "False") gen_bool_true_texts = false.
+Proof. vm_compute. split; reflexivity. Qed.
+Print Assumptions gen_bool_texts_is_model.
 
 Section GenValueProofs.
   Variables F T D : Type.
